@@ -30,6 +30,9 @@ THEOREMS = [
     "C30.noPast_of_no_absolute",
     "C30.tramp_not_before_due",
     "C30.tramp_cancelled_never_run",
+    "C30.raise_resets_trampoline",
+    "C30.idle_means_fresh",
+    "C30.exec_is_runA",
     "C30.past_due_runs_after_batch",
     "C30.per_thread_independent",
     "C30.proj_init",
@@ -43,11 +46,11 @@ RULE = ("program trees: depth <= 3, 0..4 ops per body drawn from schedule / sche
         "non-trivial = at least one nested schedule and (a timed item or a cancel or >= 3 actions). Thread schedules: enumerated deviations "
         "from the non-preemptive schedule at line granularity; non-trivial = at least one preemption inside Trampoline.run/_run")
 ASSUMPTIONS = [
-    "actions do not raise (the exception path `finally/except: idle = True; queue.clear()` is not modelled)",
+    "a raising action is modelled for the single-thread machine and in the multi-thread model (Op.raise_: the exception leaves the drain loop, `except BaseException: idle = True; queue.clear()`, re-raised to the schedule* caller); the multi-thread correspondence uses non-raising programs",
     "PriorityQueue = heapq over (item, insertion count): abstracted as a stably sorted list (C28 models the queue itself)",
     "atomicity: a `with self._lock:` block is one step; ScheduledItem.is_cancelled()/invoke and the dt computation are single steps",
     "time is integer microseconds on a controlled clock; Condition.wait(seconds) with no notifier returns at the due time",
-    "multi-thread correspondence uses untimed programs (the early wake-up of a timed wait by notify is not modelled)",
+    "condition.wait(seconds) is its own model state: it may return at any time (timeout or notify); timed programs are part of the multi-thread correspondence (a timed wait on a shared trampoline woken early by another thread's schedule)",
 ]
 TRUSTED_EXTRA = ["interleaving controller harness/sched/thr_ctl.py + thr_tramp.py (event extraction, lock-section classification)"]
 
@@ -56,8 +59,8 @@ logging.getLogger("Rx").setLevel(logging.ERROR)
 
 # ----------------------------------------------------------------------------------------- generators
 class _Gen:
-    def __init__(self, rng, allow_abs, base=1):
-        self.rng, self.allow_abs, self.next = rng, allow_abs, base
+    def __init__(self, rng, allow_abs, base=1, allow_raise=False):
+        self.rng, self.allow_abs, self.next, self.allow_raise = rng, allow_abs, base, allow_raise
 
     def body(self, depth, scope, clock_hint):
         rng = self.rng
@@ -84,6 +87,9 @@ class _Gen:
                 ops.append(["cancel", rng.choice(scope)])
             elif r < 0.85:
                 ops.append(["tick", rng.choice([1, 5, 10, 10, 25])])
+            elif r < 0.93 and depth >= 1 and self.allow_raise:
+                ops.append(["raise"])
+                break  # nothing after a raise in the same body is executed
             elif depth < 3:
                 lbl = self.next
                 self.next += 1
@@ -94,7 +100,7 @@ class _Gen:
 
 def gen_case(rng):
     allow_abs = rng.random() < 0.12
-    g = _Gen(rng, allow_abs)
+    g = _Gen(rng, allow_abs, allow_raise=rng.random() < 0.15)
     prog = g.body(0, [], 0)
     if not _has(prog, ("sched", "rel", "abs")) or rng.random() < 0.3:
         prog = prog[:1] + [["sched", 900, g.body(1, [], 0)]] + prog[1:]
@@ -107,6 +113,8 @@ def cases(rng, tier):
            "prog": [["sched", 1, [["sched", 2, [["abs", 9, -5, []]]], ["sched", 3, []]]]]}  # past-due absolute: runs after the batch
     yield {"op": "tr_seq", "sched": "cts", "clock": 0,
            "prog": [["sched", 1, [["sched", 2, [["tick", 5]]], ["sched", 3, [["sched", 5, []], ["tick", 3]]], ["rel", 4, 100, []], ["cancel", 2], ["tick", 7]]]]}
+    yield {"op": "tr_seq", "sched": "ct", "clock": 0,   # a raising action resets the trampoline; the next schedule starts fresh
+           "prog": [["sched", 1, [["sched", 2, [["rel", 4, 5, []], ["raise"]]], ["sched", 3, []]]], ["sched", 5, []]]}
     for _ in range(fw.tier_scale(tier, 1500, 15000)):
         yield gen_case(rng)
 
@@ -197,7 +205,7 @@ def bucket(case, out):
         return
     yield "sched:" + case["sched"]
     p = case["prog"]
-    for k in ("rel", "abs", "cancel", "tick"):
+    for k in ("rel", "abs", "cancel", "tick", "raise"):
         if _has(p, (k,)):
             yield "has:" + k
     ev = out["events"]
@@ -308,6 +316,9 @@ def thread_configs(rng, tier):
         ("shared-nested", {"kind": "shared", "progs": [A, B]}, 1 if q else 2),
         ("shared-cancel", {"kind": "shared", "progs": [[["sched", 1, [["sched", 2, []], ["cancel", 2]]]], [["sched", 11, []], ["cancel", 11]]]}, 1 if q else 2),
         ("ct-instance", {"kind": "ct", "progs": [A, B]}, 1 if q else 2),
+        # timed items: a timed wait on a shared trampoline is woken early by another thread's schedule (notify)
+        ("shared-timed", {"kind": "shared", "progs": [[["rel", 1, 10, []]], [["tick", 3], ["sched", 11, []]]]}, 1 if q else 2),
+        ("ct-timed", {"kind": "cts", "progs": [[["rel", 1, 10, [["sched", 2, []]]]], [["tick", 4], ["rel", 11, 3, []]]]}, 1 if q else 2),
         ("ct-singleton", {"kind": "cts", "progs": [[["sched", 1, [["sched", 2, []]]]], [["sched", 11, [["sched", 12, []], ["cancel", 12]]]]]}, 1 if q else 2),
     ]
     # one generated untimed pair per run
@@ -452,5 +463,5 @@ LEVEL_NOTE = ("Model = fixed exit path (fixes/C30_trampoline_lost_item.patch); u
               "schedules on a shared TrampolineScheduler as VIOLATION. Past-due schedule_absolute running after the pending ready batch "
               "(order A,B,C,P) is outside the property's quantifier (schedule/schedule_relative/cancel): tramp_due_order carries the hypothesis "
               "NoPast, which noPast_of_no_absolute discharges for schedule/schedule_relative; past_due_runs_after_batch documents the deviation. "
-              "Not modelled: raising actions, early wake-up of a timed wait on a shared trampoline. Atomicity of the steps is validated by the "
+              "Raising actions (raise_resets_trampoline) and the early wake-up of a timed wait are modelled. Atomicity of the steps is validated by the "
               "controller (guarded fields touched only inside the trampoline lock; every locked section = one model step), not proved.")
